@@ -57,13 +57,12 @@ Theorem short_arguments_rejected : forall name groups rest gs n,
   forallb (forallb wf_tokb) groups = true -> short_rest_ok rest ->
   layout_okb None gs (LName name :: flat_map flat_group groups ++ rest) = true ->
   no_cr (weave gs (LName name :: flat_map flat_group groups ++ rest)) = true ->
-  ssl false (weave gs (LName name :: flat_map flat_group groups ++ rest)) = true ->
   exists pre post,
     weave gs (LName name :: flat_map flat_group groups ++ rest) = pre ++ post /\
     parse_text (weave gs (LName name :: flat_map flat_group groups ++ rest)) = PyErr (short_cls rest) (1 + lf pre)%Z /\
     match rest with [] => post = [] | t :: _ => exists post', post = ltok_text t ++ post' end.
 Proof.
-  intros name groups rest gs n Hname Har Hlen Hwf Hrest Hlay Hcr Hssl.
+  intros name groups rest gs n Hname Har Hlen Hwf Hrest Hlay Hcr.
   pose proof (wf_nameb_wf _ Hname) as Hn.
   rewrite weave_cons in *. cbn [ltok_text] in *.
   set (g0 := gap_hd gs) in *. set (s1 := weave (tl gs) (flat_map flat_group groups ++ rest)) in *.
@@ -71,26 +70,23 @@ Proof.
   pose proof (boundary_from_layout (LName name) _ _ Hlay1) as Hb. cbn [boundary_ok] in Hb. fold s1 in Hb.
   (* the groups that are there *)
   destruct (parse_args_groups groups Hwf (tl gs) rest (Some (LName name)) (S (length (g0 ++ name ++ s1)))
-              (1 + nl_count g0)%Z Hlay1) as (gs' & prev' & ln' & Hpa & Hlay' & _).
+              (tline 1 g0 (LName name)) Hlay1) as (gs' & prev' & ln' & Hpa & Hlay' & _).
   { fold s1. rewrite !app_length. lia. }
   fold s1 in Hpa.
   (* hypotheses about s1 *)
   destruct (no_cr_app _ _ Hcr) as [Hcr0 Hcr1']. destruct (no_cr_app _ _ Hcr1') as [_ Hcr1].
-  assert (Hssl1 : ssl false s1 = true).
-  { rewrite ssl_noquote in Hssl; [|apply (forallb_impl _ _ _ space_not_quote Hsp0)].
-    destruct Hn as [_ Hall]. destruct (plain_facts name (forallb_impl _ _ _ name_char_plain Hall)) as [_ H2].
-    now rewrite H2 in Hssl. }
   assert (Hlfname : lf name = 0%Z).
   { destruct Hn as [_ Hall]. apply (plain_facts name (forallb_impl _ _ _ name_char_plain Hall)). }
   (* the line after the groups *)
-  pose proof (parse_args_inv (S (length (g0 ++ name ++ s1))) (length groups) s1 (1 + nl_count g0)%Z Hcr1 Hssl1) as Hinv.
+  assert (Htl : tline 1 g0 (LName name) = (1 + lf g0)%Z).
+  { unfold tline. cbn [ltok_text]. rewrite (nl_count_name name (proj2 Hn)), (nl_count_nocr g0 Hcr0). lia. }
+  pose proof (parse_args_inv (S (length (g0 ++ name ++ s1))) (length groups) s1 (tline 1 g0 (LName name)) Hcr1) as Hinv.
   rewrite Hpa in Hinv. cbn [inv_result0] in Hinv.
-  assert (Hk : exists k, s1 = k ++ weave gs' rest /\ ln' = (1 + nl_count g0 + lf k)%Z).
-  { destruct Hinv as [(H1 & H2 & _)|(k & H1 & _ & H2 & _)].
-    - exists []. split; [now rewrite H1|]. rewrite H2. unfold lf. cbn. lia.
-    - exists k. auto. }
+  assert (Hk : exists k, s1 = k ++ weave gs' rest /\ ln' = (1 + lf g0 + lf k)%Z).
+  { destruct Hinv as [(H1 & H2)|(k & H1 & _ & H2)].
+    - exists []. split; [now rewrite H1|]. rewrite H2, Htl. unfold lf. cbn. lia.
+    - exists k. rewrite <- Htl. auto. }
   destruct Hk as (k & Hs1 & Hln').
-  rewrite (nl_count_nocr g0 Hcr0) in *.
   (* the missing group *)
   destruct (Nat.le_exists_sub (S (length groups)) n Hlen) as (m & Hm & _).
   assert (Hn' : n = (length groups + S m)%nat) by lia.
@@ -114,7 +110,6 @@ Proof.
   rewrite (nl_count_nocr g Hcrg) in Hreq.
   unfold parse_text. cbn [parse_loop]. unfold parse_command.
   rewrite (required_name g0 name s1 1%Z Hsp0 Hn Hb). cbn [bind]. rewrite Har, Hn'.
-  rewrite (nl_count_nocr g0 Hcr0).
   rewrite (parse_args_split _ _ m _ _ _ _ _ _ _ Hpa Hreq). cbn [bind].
   assert (Hc : (short_cls rest =? cls_eof) = false) by (destruct rest; reflexivity).
   rewrite Hc. f_equal. rewrite !lf_app, Hlfname, Hln'. lia.
